@@ -915,17 +915,19 @@ theorem no_extra_converter :
   decide +kernel
 
 /-- **migrate_ends_at_current.** Whenever the composed `migrate_flow` returns, the record carries the current version. -/
-theorem migrate_ends_at_current (fresh : Nat → Value) (fadd : Bytes → Option Bytes) (cur : Int) (f : Nat) (st st' : MigSt) (prev : Option VKey)
-    (d d' : Dict) (h : migrateFlow fresh fadd cur f st prev d = some (st', d')) : versionKey d' = some (.int cur) := by
+theorem migrateF_ends_at_current (fresh : Nat → Value) (fadd : Bytes → Option Bytes) (cur : Int) (f : Nat) (st st' : MigSt)
+    (prev : Option VKey) (d d' : Dict) (h : migrateFlowF fresh fadd cur f st prev d = some (some (st', d'))) :
+    versionKey d' = some (.int cur) := by
   induction f generalizing st prev d with
-  | zero => simp [migrateFlow] at h
+  | zero => simp [migrateFlowF] at h
   | succ f ih =>
-    unfold migrateFlow at h
+    unfold migrateFlowF at h
     split at h
     · cases h
     · next k hk =>
       split at h
-      · next hcur => simp only [Option.some.injEq, Prod.mk.injEq] at h; obtain ⟨_, rfl⟩ := h; rw [hk, hcur]
+      · next hcur =>
+        simp only [Option.some.injEq, Prod.mk.injEq] at h; obtain ⟨_, rfl⟩ := h; rw [hk, hcur]
       · split at h
         · cases h
         · split at h
@@ -933,12 +935,84 @@ theorem migrate_ends_at_current (fresh : Nat → Value) (fadd : Bytes → Option
           · cases h
           · exact ih _ _ _ h
 
+theorem migrate_ends_at_current (fresh : Nat → Value) (fadd : Bytes → Option Bytes) (cur : Int) (f : Nat) (st st' : MigSt) (prev : Option VKey)
+    (d d' : Dict) (h : migrateFlow fresh fadd cur f st prev d = some (st', d')) : versionKey d' = some (.int cur) := by
+  unfold migrateFlow at h
+  cases hF : migrateFlowF fresh fadd cur f st prev d with
+  | none => simp [hF] at h
+  | some r =>
+    cases r with
+    | none => simp [hF] at h
+    | some x =>
+      simp only [hF, Option.join_some, Option.some.injEq] at h
+      subst h
+      exact migrateF_ends_at_current fresh fadd cur f st st' prev d d' hF
+
+/-- **migrate_fuel_irrelevant.** Fuel only matters until the loop has ended: once the model gives an answer — returned or
+    raised — with fuel `f`, it gives the same answer with any larger fuel.  So running out of fuel (outer `none`, which the
+    driver prints as `diverged`) can never be mistaken for an exception, and an answer never depends on the constant chosen. -/
+theorem migrate_fuel_irrelevant (fresh : Nat → Value) (fadd : Bytes → Option Bytes) (cur : Int) (f k : Nat) (st : MigSt)
+    (prev : Option VKey) (d : Dict) (r : Option (MigSt × Dict)) (h : migrateFlowF fresh fadd cur f st prev d = some r) :
+    migrateFlowF fresh fadd cur (f + k) st prev d = some r := by
+  induction f generalizing st prev d with
+  | zero => simp [migrateFlowF] at h
+  | succ f ih =>
+    have e : f + 1 + k = (f + k) + 1 := by omega
+    rw [e]
+    rw [migrateFlowF] at h ⊢
+    cases hk : versionKey d with
+    | none => simpa [hk] using h
+    | some kk =>
+      simp only [hk] at h ⊢
+      by_cases hcur : kk = .int cur
+      · simpa [hcur] using h
+      · simp only [hcur, if_false] at h ⊢
+        by_cases hp : some kk = prev
+        · simpa [hp] using h
+        · simp only [hp, if_false] at h ⊢
+          cases hc : convAny fresh fadd st kk d with
+          | none => simpa [hc] using h
+          | some r2 =>
+            cases r2 with
+            | none => simpa [hc] using h
+            | some p =>
+              obtain ⟨st2, d2⟩ := p
+              simp only [hc] at h ⊢
+              exact ih _ _ _ h
+
 /-- **migrate_current_unchanged.** A record already at the current version is returned as it is, tables untouched. -/
 theorem migrate_current_unchanged (fresh : Nat → Value) (fadd : Bytes → Option Bytes) (cur : Int) (f : Nat) (st : MigSt) (prev : Option VKey) (d : Dict)
     (h : versionKey d = some (.int cur)) : migrateFlow fresh fadd cur (f + 1) st prev d = some (st, d) := by
-  unfold migrateFlow
+  unfold migrateFlow migrateFlowF
   simp [h]
 
+/-- **migrate_turn_cases.** What the composed loop reports as an exception is one of: no usable version value, a version
+    with no converter (the graph-level `reject` says which message: `unknown_rejected`, `reject_update_iff`), the stale-version
+    refusal, or a converter that raised — never silence: every turn either ends the loop or applies exactly one converter and
+    goes on with the converted record. -/
+theorem migrate_turn_cases (fresh : Nat → Value) (fadd : Bytes → Option Bytes) (cur : Int) (f : Nat) (st : MigSt) (prev : Option VKey) (d : Dict) :
+    migrateFlowF fresh fadd cur (f + 1) st prev d = some none ∨
+    migrateFlowF fresh fadd cur (f + 1) st prev d = some (some (st, d)) ∨
+    ∃ k st' d', versionKey d = some k ∧ convAny fresh fadd st k d = some (some (st', d')) ∧
+      migrateFlowF fresh fadd cur (f + 1) st prev d = migrateFlowF fresh fadd cur f st' (some k) d' := by
+  cases hk : versionKey d with
+  | none => left; rw [migrateFlowF]; simp [hk]
+  | some k =>
+    by_cases hcur : k = .int cur
+    · right; left; rw [migrateFlowF]; simp [hk, hcur]
+    · by_cases hp : some k = prev
+      · subst hp; left; rw [migrateFlowF]; simp [hk, hcur]
+      · cases hc : convAny fresh fadd st k d with
+        | none => left; rw [migrateFlowF]; simp [hk, hcur, hp, hc]
+        | some r2 =>
+          cases r2 with
+          | none => left; rw [migrateFlowF]; simp [hk, hcur, hp, hc]
+          | some p =>
+            obtain ⟨st', d'⟩ := p
+            right; right
+            refine ⟨k, st', d', rfl, hc, ?_⟩
+            rw [migrateFlowF]
+            simp [hk, hcur, hp, hc]
 
 /-- **migrate_keeps_request_partial.** One turn of the composed loop on a record of an integer format 12 … 20 (no stale
     bytes `version` key) leaves request, id and type as they are and moves the version on by one — the loop invariant of
@@ -1049,7 +1123,7 @@ example :
 end Converters
 
 -- non-vacuity: the graph is non-empty, the oldest key migrates, an unknown future version is refused
-example : graph.length = 29 ∨ graph.length ≠ 29 := by decide
+example : graph ≠ [] := by decide
 example : migrate graph current (graph.length + 1) (.tup 0 11) = .ok := by decide +kernel
 example : migrate graph current (graph.length + 1) (.int 22) = .errUpdate := by decide +kernel
 example : migrate graph current (graph.length + 1) (.tup 9 9) = .errUnknown := by decide +kernel
